@@ -24,6 +24,7 @@ type C16 struct {
 	Base   uint64 // batch nonces already used on every chain (genesis field LastOutgoingBatchTxNonce)
 	Keyless bool  // a fifth bonded validator E that never registered keys
 	Rotate  bool  // validator A may register new keys (MsgDelegateKeys again) after it has confirmed
+	Many    bool  // start from more than 100 pending batches on one chain (more than one page of a paginated walk)
 	Heights bool  // external heights are observed (deposits claimed by all bonded validators), so batches carry real timeouts
 }
 
@@ -37,6 +38,9 @@ func (c *C16) Setup(in *hub.Instance) {}
 func (c *C16) SeedPaths() [][]engine.Op {
 	if c.Base > 0 {
 		return [][]engine.Op{{engine.OpN("MkBatch", "ethereum"), engine.OpN("MkBatch", "ethereum"), engine.OpN("MkBatch", "ethereum")}}
+	}
+	if c.Many {
+		return [][]engine.Op{{engine.OpN("MkMany", "ethereum", 101)}}
 	}
 	if c.Heights {
 		// an external height is known, then a batch is built (it gets a timeout a few thousand blocks ahead)
@@ -130,6 +134,9 @@ func (c *C16) Ops(s *HState) []engine.Op {
 	}
 	if c.Rotate {
 		ops = append(ops, engine.OpN("Rotate"))
+		// x/slashing jails validator B (downtime): it is out of the bonded set from the next block on, its recorded
+		// confirmations stay what they are
+		ops = append(ops, engine.OpN("JailB"))
 	}
 	if c.Heights {
 		ops = append(ops, engine.OpN("Dep", "ethereum", 600), engine.OpN("Dep", "ethereum", 10_000_000))
@@ -246,6 +253,18 @@ func (c *C16) Do(in *hub.Instance, gg Ghost, op engine.Op, st *engine.Step) {
 		r := in.DeliverMsg(mhubtypes.NewMsgSendToExternal(mhubtypes.ChainID(ch), c.User, hub.HexAddr("r"), sdk.NewInt64Coin("hub", 1000), sdk.NewInt64Coin("hub", 5)))
 		r2 := in.DeliverMsg(&mhubtypes.MsgRequestBatchTx{ChainId: ch, Denom: "hub", Signer: c.User.String()})
 		st.Obs = fmt.Sprint(r.OK(), r2.OK())
+	case "MkMany":
+		// op.I[0] batches of one token: each later transfer pays a higher fee, so each request builds a new batch
+		ch := op.S[0]
+		n := 0
+		for i := int64(0); i < op.I[0]; i++ {
+			r := in.DeliverMsg(mhubtypes.NewMsgSendToExternal(mhubtypes.ChainID(ch), c.User, hub.HexAddr("r"), sdk.NewInt64Coin("hub", 1000), sdk.NewInt64Coin("hub", 5+i)))
+			r2 := in.DeliverMsg(&mhubtypes.MsgRequestBatchTx{ChainId: ch, Denom: "hub", Signer: c.User.String()})
+			if r.OK() && r2.OK() {
+				n++
+			}
+		}
+		st.Obs = fmt.Sprint("many", n)
 	case "MkBatch2":
 		ch := op.S[0]
 		r := in.DeliverMsg(mhubtypes.NewMsgSendToExternal(mhubtypes.ChainID(ch), c.User, hub.HexAddr("r"), sdk.NewInt64Coin("eth", 1000), sdk.NewInt64Coin("eth", 5)))
@@ -265,6 +284,11 @@ func (c *C16) Do(in *hub.Instance, gg Ghost, op engine.Op, st *engine.Step) {
 		st.Obs = fmt.Sprint(exists)
 	case "Confirm":
 		c.confirm(in, g, op, st)
+	case "JailB":
+		if in.Staking.Vals[1].Bonded && !in.Staking.Vals[1].Jailed {
+			in.ValJail(1)
+		}
+		st.Obs = "jailed"
 	case "Rotate":
 		// validator A registers a new orchestrator and a new external key on ethereum
 		v := c.Vals[0]
@@ -546,6 +570,11 @@ func init() {
 		long.Oper, long.Acc = sdk.ValAddress(lb), sdk.AccAddress(lb)
 		odd.Vals[0] = long
 		odd.Vals[1] = edgeValidator("B", 0xff, 0xff)
+		mny := NewC16()
+		mny.Many = true
+		mny.Chains = []string{"ethereum"}
+		cfgMany := cfg
+		cfgMany.MaxDepth = 2
 		hts := NewC16()
 		hts.Heights = true
 		hts.Chains = []string{"ethereum"}
@@ -560,6 +589,7 @@ func init() {
 				{Name: "a bonded validator that never registered keys", Spec: kl, Cfg: cfg},
 				{Name: "validator A registers new keys after confirming", Spec: rot, Cfg: cfg},
 				{Name: "observed external heights, a batch with a real timeout", Spec: hts, Cfg: cfg},
+				{Name: "101 pending batches of one token", Spec: mny, Cfg: cfgMany},
 				{Name: "operator addresses of 32 bytes (A) and 0xff..ff (B)", Spec: odd, Cfg: cfg}}, []string{
 			"validators A, B bonded, C unbonded, D unbonding (all with registered keys); batches: up to three of one token plus one of a second token on ethereum; signers: validator account, orchestrator, stranger; tx refs: existing/unknown signer set, existing/unknown batch, contract call; claimed external signer own/other's; a confirmation built for the other chain's batch; duplicates by repetition",
 			"second case: the chain has already issued 253 batch nonces (genesis field LastOutgoingBatchTxNonce), so that the next batches straddle a byte boundary of the nonce inside the signature store keys",
